@@ -740,7 +740,11 @@ class C10(Prop):
             for k in keys:
                 cfg[k] = rng.choice(self.F32_POOL[k])
             return cfg, {k: "f32" for k in keys if rng.random() < 0.8}
-        types = {k: rng.choice(["int", "i64", "f64", "arr0", "float"]) for k in keys}
+        if rng.random() < 0.35:  # every parameter of one type (integers: the pixel sizes are integers too)
+            t_ = rng.choice(["int", "int", "i64", "f64", "arr0"])
+            types = {k: t_ for k in keys}
+        else:
+            types = {k: rng.choice(["int", "i64", "f64", "arr0", "float"]) for k in keys}
         for k, t in types.items():
             if t in ("int", "i64"):
                 cfg[k] = float(rng.randint(1, 300))
@@ -831,7 +835,8 @@ class C10(Prop):
                 rows, cols = rng.randint(1, 120), rng.randint(1, 120)
             rect = self.gen_rect(rng, rows, cols)
             extra = {"types": types, "dtypes": [rng.choice(sorted(DTYPES)) for _ in range(2)], "layout": rng.choice(["C", "C", "F", "view"]),
-                     "opts": {"btypes": [rng.choice(["float", "f64", "int", "i64", "f32", "arr0"]) for _ in range(4)],
+                     "opts": {"btypes": ([rng.choice(["f64", "int", "int", "i64", "f32", "arr0"])] * 4 if rng.random() < 0.5
+                                         else [rng.choice(["float", "f64", "int", "i64", "f32", "arr0"]) for _ in range(4)]),
                               "container": rng.choice(["tuple", "tuple", "list", "array"]),
                               "calibrate": rng.choice(["omit", "omit", "False", "None"])}}
         elif u < 0.42:
@@ -970,6 +975,9 @@ class C10(Prop):
             for cont in ("tuple", "list", "array"):
                 yield {"kind": "get", "cfg": c_, "rows": 7, "cols": 9, "nel": 2, "element": None, "rect": [1, 7, 2, 9], "modes": ["mul"] * 4, "types": types_,
                        "dtypes": ["f4", "u2"], "layout": "view", "opts": {"btypes": ["f32", "int", "i64", "arr0"], "container": cont, "calibrate": "None"}}
+            for bt in ("int", "i64", "f64", "f32", "arr0"):
+                yield {"kind": "get", "cfg": c_, "rows": 7, "cols": 9, "nel": 1, "element": 0, "rect": [2, 7, 1, 9], "modes": ["mul"] * 4, "types": types_,
+                       "dtypes": ["i4"], "layout": "F", "opts": {"btypes": [bt] * 4, "container": "tuple", "calibrate": "False"}}
         yield {"kind": "extent", "cfg": {"kind": "spot", "sx": 12.5, "sy": 12.5}, "rows": 3, "cols": 5, "types": {"sx": "f32", "sy": "omitted"}}
         # ---- extreme magnitudes: the values must come back from the array form exactly
         for c_ in ({"kind": "raster", "spotsize": 1e-300, "speed": 1e300, "scantime": 1e-300}, {"kind": "raster", "spotsize": 5e-324, "speed": 1e160, "scantime": 1e-160},
@@ -1735,7 +1743,7 @@ class C10(Prop):
                         raise core.InternalError(f"unknown attribute {name}")
                     names.append(name)
                 tag = "attributes one by one"
-                feats.add("srr-history: order " + " > ".join(n[:4] for n in names))
+                feats.add("srr-history: first of the attributes edited: " + names[0])
                 if ch["mag"] != cur["mag"]:
                     feats.add("srr-history: magnification changed")
                 if not any(n == "warmup" for n in names) and any(n == "scantime" for n in names):
